@@ -61,7 +61,9 @@ prop('C03', title='Every expressed Interest completes exactly once with the righ
                 'order, return value = nothing remains); _on_data over any number of prefix nodes, _on_nack, _remove_pending, '
                 '_wait_for_data (timeout / cancellation mapped after removal, other outcomes passed through) and express_raw_interest '
                 '(one fresh entry registered before the Interest is sent, coroutine waits on that future); legacy front-end: '
-                'name_tree.InterestTreeNode.nack_interest / satisfy / timeout / cancel (same clauses, completion with the Data itself).',
+                'name_tree.InterestTreeNode.nack_interest / satisfy / timeout / cancel (same clauses, completion with the Data itself) and '
+                'the table handlers; express / express_interest (refusals before any effect, data flow into make_interest and '
+                'express_raw_interest, nonce, signer selection) and _clean_up (every pending node cancelled once, tables emptied).',
      level_note='Bounded by history length and alphabet (see evidence.bounded); liveness rests on asyncio.wait_for. The composition of the '
                 'per-function contracts over all event histories (a global exactly-once theorem) is NOT proved: asyncio futures / tasks, '
                 'pygtrie and wait_for are assumed interfaces, futures of distinct entries are assumed distinct.',
